@@ -357,8 +357,8 @@ func (c *ctxT) hist(serve bool, ops []string, class string) {
 		}
 	}
 	var res []string
-	closedKnown := false  // a Close has returned or Serve has returned
-	errExpected := false  // Serve ended by sending a stream error of its own while the output was still open
+	closedKnown := false // a Close has returned or Serve has returned
+	errExpected := false // Serve ended by sending a stream error of its own while the output was still open
 	termEvent := ""
 	lastDeadline := ""
 	deadlineAtTerm := ""
